@@ -160,6 +160,10 @@ def run_model(cases):
             cur["file"] = [(t.split(":")[0], int(t.split(":")[1]), int(t.split(":")[2])) for t in p[1:]]
         elif p[0] == "log":
             cur["log"] = p[1:]
+        elif p[0] == "rf":
+            cur["rf"] = [(int(t.split(":")[0]), [int(x) for x in t.split(":")[1].split(",") if x != ""]) for t in p[1:]]
+        elif p[0] == "pending":
+            cur["pending"] = [int(x) for x in p[1:]]
         elif p[0] in ("k", "abort", "pc"):
             cur[p[0]] = int(p[1])
         elif p[0] == "status":
